@@ -229,6 +229,13 @@ class GetItem(Contract):
             raise U("__getitem__ of non-ndpoly", node)
         x = index if isinstance(index, IndexTok) else IndexTok.of(ex, index, node)
         ctx = ex.ctx
+        tk = getattr(x, "take", None)
+        if tk is not None:
+            from engine.polymodel import extent
+            from engine.logic import ndim
+            ax, k = tk
+            ex.oblige(f"pre({ex.site('getitem')}).index_in_bounds", z3.And(ndim(P.shape) > ax, 0 <= k, k < extent(P.shape, z3.IntVal(ax))),
+                      "index", node, note="IndexError otherwise")
         tgt = ishape(P.shape, x.term)
         r = Poly(ctx, ctx.fresh("item"), shape=tgt, dtype=P.dtype, region=Region("fresh", "__getitem__"))
         r.owndata = z3.BoolVal(True)
